@@ -12,6 +12,7 @@ import math
 import os
 import random
 import sys
+import warnings
 
 from . import lib
 
@@ -400,6 +401,7 @@ def abstract_json(atoms):
 def record(case):
     """Push one table through one path of the real code.  case = {id, tid, path, atoms, seed}."""
     from rnapolis import parser_v2 as p2
+    warnings.simplefilter("ignore")          # pandas FutureWarnings of the code under test are not data
     K = CONSTS
     rng = random.Random(f"{case['seed']}/{case['tid']}/{case['path']}")
     c = {"id": case["id"], "tid": case["tid"], "path": case["path"], "atoms": abstract_json(case["atoms"]),
